@@ -530,7 +530,7 @@ def _linked_value_sequence(plan, grid, gspec, fcls, data, name, kw, rank_in, out
             val = np.broadcast_to(val, full_shape)
         except ValueError:
             return
-    linked = np.ascontiguousarray(val).copy()
+    linked = np.array(val, dtype=float, order="C", copy=True)  # (ascontiguousarray would turn a 0-d value - 1-d grids - into a 1-d array)
     try:
         target.link_value(linked)
     except Exception as err:  # noqa: BLE001
